@@ -19,7 +19,20 @@ import (
 type vrec struct {
 	w     *bufio.Writer
 	stats map[string]int
+	ep    int
+	viols int
 }
+
+// viol records a failure of a model-independent oracle (a plain Go reference queue): this is a
+// concrete failing input for C04/C17, independent of the Coq model.
+func (r *vrec) viol(kind string, op int, format string, a ...any) {
+	r.viols++
+	if r.viols <= 20 {
+		fmt.Fprintf(r.w, "#VIOLATION %s episode=%d op=%d %s\n", kind, r.ep, op, fmt.Sprintf(format, a...))
+	}
+}
+
+type refItem struct{ prio, seq, val int }
 
 func (r *vrec) p(format string, a ...any) { fmt.Fprintf(r.w, format+"\n", a...) }
 
@@ -74,6 +87,8 @@ func fifoEpisode(r *vrec, rng *rand.Rand, initCap, maxCap, nops int) {
 	r.p("FIFO %d %d", initCap, maxCap)
 	next := 1
 	bias := 60
+	var ref []int
+	closed := false
 	for i := 0; i < nops; i++ {
 		if i%97 == 0 {
 			bias = []int{85, 60, 50, 30, 10}[rng.Intn(5)]
@@ -86,15 +101,23 @@ func fifoEpisode(r *vrec, rng *rand.Rand, initCap, maxCap, nops int) {
 				initialBufferCapacity = 1 + rng.Intn(8)
 			}
 			q.Purge()
+			ref = nil
 			r.p("P %d", initialBufferCapacity)
 			r.stats["fifo.purge"]++
 		case k < 4 && i > nops/2:
 			q.Close()
+			closed = true
 			r.p("C")
 			r.stats["fifo.close"]++
 		case k%100 < bias:
 			ok := q.Enqueue(next)
 			r.p("E %d %d", next, b2i(ok))
+			if ok == closed {
+				r.viol("fifo.enqueue-result", i, "enqueue(%d)=%v closed=%v", next, ok, closed)
+			}
+			if ok {
+				ref = append(ref, next)
+			}
 			next++
 			r.stats["fifo.enq"]++
 			if !ok {
@@ -105,10 +128,22 @@ func fifoEpisode(r *vrec, rng *rand.Rand, initCap, maxCap, nops int) {
 			if ok {
 				r.p("D 1 %d", v.(int))
 				r.stats["fifo.deq"]++
+				if len(ref) == 0 || ref[0] != v.(int) {
+					r.viol("fifo.order", i, "dequeued %d, oldest pending is %v", v.(int), ref)
+				}
+				if len(ref) > 0 {
+					ref = ref[1:]
+				}
 			} else {
 				r.p("D 0")
 				r.stats["fifo.deq_empty"]++
+				if len(ref) != 0 {
+					r.viol("fifo.lost", i, "dequeue failed with %d pending", len(ref))
+				}
 			}
+		}
+		if l := q.Len(); l != len(ref) {
+			r.viol("fifo.len", i, "Len()=%d, pending=%d", l, len(ref))
 		}
 		recFifoObs(r, q, rng, false)
 	}
@@ -125,6 +160,37 @@ func heapEpisode(r *vrec, rng *rand.Rand, nops int) {
 	r.p("HEAP")
 	next := 1
 	bias := 60
+	var ref []refItem
+	seq := 0
+	closed := false
+	refPop := func(i int, v int, ok bool) {
+		if !ok {
+			if len(ref) != 0 {
+				r.viol("heap.lost", i, "dequeue failed with %d pending", len(ref))
+			}
+			return
+		}
+		best := -1
+		for k, it := range ref {
+			if best < 0 || it.prio < ref[best].prio || (it.prio == ref[best].prio && it.seq < ref[best].seq) {
+				best = k
+			}
+		}
+		if best < 0 || ref[best].val != v {
+			r.viol("heap.order", i, "dequeued %d, expected %v of %v", v, func() any {
+				if best < 0 {
+					return nil
+				}
+				return ref[best]
+			}(), ref)
+		}
+		for k, it := range ref {
+			if it.val == v {
+				ref = append(ref[:k:k], ref[k+1:]...)
+				break
+			}
+		}
+	}
 	prange := []int{1, 2, 3, 5, 1000}[rng.Intn(5)] // few distinct priorities => many ties
 	obs := func(force bool) {
 		if force || rng.Intn(4) == 0 {
@@ -147,10 +213,12 @@ func heapEpisode(r *vrec, rng *rand.Rand, nops int) {
 		switch {
 		case k < 4:
 			q.Purge()
+			ref = nil
 			r.p("HP")
 			r.stats["heap.purge"]++
 		case k < 5 && i > nops/2:
 			q.Close()
+			closed = true
 			r.p("HC")
 			r.stats["heap.close"]++
 		case k%100 < bias:
@@ -166,6 +234,13 @@ func heapEpisode(r *vrec, rng *rand.Rand, nops int) {
 			}
 			ok := q.Enqueue(next, p)
 			r.p("H+ %d %d %d", p, next, b2i(ok))
+			if ok == closed {
+				r.viol("heap.enqueue-result", i, "enqueue=%v closed=%v", ok, closed)
+			}
+			if ok {
+				ref = append(ref, refItem{p, seq, next})
+				seq++
+			}
 			next++
 			r.stats["heap.push"]++
 		default:
@@ -173,10 +248,15 @@ func heapEpisode(r *vrec, rng *rand.Rand, nops int) {
 			if ok {
 				r.p("H- 1 %d", v.(int))
 				r.stats["heap.pop"]++
+				refPop(i, v.(int), true)
 			} else {
 				r.p("H- 0")
 				r.stats["heap.pop_empty"]++
+				refPop(i, 0, false)
 			}
+		}
+		if l := q.Len(); l != len(ref) {
+			r.viol("heap.len", i, "Len()=%d, pending=%d", l, len(ref))
 		}
 		obs(false)
 	}
@@ -185,10 +265,12 @@ func heapEpisode(r *vrec, rng *rand.Rand, nops int) {
 		v, ok := q.Dequeue()
 		if !ok {
 			r.p("H- 0")
+			refPop(nops, 0, false)
 			break
 		}
 		r.p("H- 1 %d", v.(int))
 		r.stats["heap.pop"]++
+		refPop(nops, v.(int), true)
 	}
 	obs(true)
 }
@@ -210,6 +292,8 @@ func TestVerifDiff(t *testing.T) {
 	defer r.w.Flush()
 	rng := rand.New(rand.NewSource(seed))
 	saveInit, saveMax := initialBufferCapacity, chunkMaxCapacity
+	r.p("#PARAM initialBufferCapacity %d", saveInit)
+	r.p("#PARAM chunkMaxCapacity %d", saveMax)
 	defer func() { initialBufferCapacity, chunkMaxCapacity = saveInit, saveMax }()
 	for e := 0; e < episodes; e++ {
 		ic := 1 + rng.Intn(6)
@@ -217,13 +301,17 @@ func TestVerifDiff(t *testing.T) {
 		if rng.Intn(5) == 0 {
 			mc = 1 + rng.Intn(ic) // max below initial: growth clamps immediately
 		}
+		r.ep = 2 * e
 		fifoEpisode(r, rng, ic, mc, 200+rng.Intn(600))
+		r.ep = 2*e + 1
 		heapEpisode(r, rng, 100+rng.Intn(500))
 		r.stats["episodes"]++
 	}
 	// the real capacities: crosses 1024, 1536, 2304 ... segments
+	r.ep = 2 * episodes
 	fifoEpisode(r, rng, saveInit, saveMax, bigOps)
 	r.stats["episodes"]++
+	r.stats["oracle_violations"] = r.viols
 	r.w.WriteString("#STATS")
 	for k, v := range r.stats {
 		fmt.Fprintf(r.w, " %s=%d", k, v)
